@@ -114,6 +114,35 @@ func (p c14) Gen(r *simhook.Rand, tier string, idx int) harness.Scenario {
 		add(others[r.Intn(len(others))], k)
 		k++
 	}
+	// names derived from a real command: a suffix, a prefix, a letter doubled or dropped (none is a Redis command
+	// unless the table says so, and then it is judged as that command)
+	for i := 0; i < 4; i++ {
+		base := names[r.Intn(len(names))]
+		if r.Chance(1, 3) {
+			base = []string{"georadiusbymember", "georadius", "zrevrangebyscore", "get", "set", "hgetall", "pfcount", "bitfield", "sort", "eval"}[r.Intn(10)]
+		}
+		var d string
+		switch r.Intn(5) {
+		case 0:
+			d = base + []string{"_ro", "x", "2", "s", "_", "nx", "ex"}[r.Intn(7)]
+		case 1:
+			d = []string{"x", "p", "m", "h", "z", "_"}[r.Intn(6)] + base
+		case 2:
+			j := r.Intn(len(base))
+			d = base[:j] + base[j:j+1] + base[j:]
+		case 3:
+			if len(base) > 2 {
+				j := r.Intn(len(base))
+				d = base[:j] + base[j+1:]
+			} else {
+				d = base + base
+			}
+		default:
+			d = base + base
+		}
+		add(d, k)
+		k++
+	}
 	// the well known ones in every run, since they matter most
 	for _, n := range []string{"get", "set", "geoadd", "sort", "del", "mget", "mset", "zadd", "exists", "ping", "hotkey"} {
 		if r.Chance(1, 2) {
@@ -156,6 +185,14 @@ func (p c14) Gen(r *simhook.Rand, tier string, idx int) harness.Scenario {
 		sc.Conns = []ConnScript{{Name: "c0", Reqs: reqs}}
 		slot := cluster.Slot([]byte(mk))
 		sc.Faults = []Fault{{Kind: "layout", From: slot, To: slot, Dst: r.Intn(sc.Env.Masters), AfterSend: r.Intn(at)}}
+	} else if r.Chance(1, 4) {
+		// class "clusterdown": one master loses sight of the majority for a while and refuses keyed commands with
+		// CLUSTERDOWN; ownership does not change, so whatever the proxy does about the refusal (report it, ask for a
+		// new layout, try again) every command it sends is judged as always
+		sc.Class += "+clusterdown"
+		m := r.Intn(sc.Env.Masters)
+		at := r.Intn(len(cs.Reqs)*4 + 1)
+		sc.Faults = []Fault{{Kind: "clusterdown", Node: m, AfterSend: at}, {Kind: "clusterup", Node: m, AfterSend: at + 1 + r.Intn(len(cs.Reqs)*6+1)}}
 	} else if sc.Env.Replicas > 0 && r.Chance(1, 3) {
 		if strategy != 0 && r.Chance(1, 2) {
 			// class "strategy-switch": a configuration update sets the read strategy to MASTER while the client works;
